@@ -10,7 +10,7 @@ import itertools
 from typing import Any, Callable, Dict, List, Optional, Tuple
 
 from vf import pyvc, rx, sstr
-from vf.core import Ob, scenario, simple_ob, sym_run
+from vf.core import Ob, scenario, simple_ob, sym_run, worst_per_name
 from vf.jasmrt import J, NullLog, ensure
 from vf.pyvc import Name, SymSeq, Unsupported, ctx
 from vf.sstr import SymStr, lit, uniform, var
@@ -455,9 +455,16 @@ def pipeline():
         # contract of parse_line (verified per line shape above): an Instruction carrying the line's address,
         # or a non-Instruction
         def stub(line, *a_, **k_):        # optional parameters added to parse_line are inert by contract
-            if ctx().choose(2, "line-kind") == 0:
+            # the whole outcome space of parse_line: an Instruction, a Label, a Section, or the line itself (any other text:
+            # titles, blank lines, elisions, ...) -- whatever the caller makes of a non-instruction, the consumer sees none of it
+            kind = ctx().choose(4, "line-kind")
+            if kind == 0:
                 return J.gd.Instruction(addr=Name("addr(" + line.ident + ")"), mnemonic=Name("mn(" + line.ident + ")"), operands=[])
-            return lp.Label(addr="0", name="x")
+            if kind == 1:
+                return lp.Label(addr="0", name="x")
+            if kind == 2 and hasattr(lp, "Section"):
+                return lp.Section(name=".text") if "name" in getattr(lp.Section, "__dataclass_fields__", {"name": 1}) else lp.Label(addr="0", name="x")
+            return line
         lp.parse_line = stub
         ctx().loop_contracts = {"parse": _LoopLog(log, inner, "ObjdumpParserManual.parse")}
         try:
@@ -465,12 +472,12 @@ def pipeline():
         finally:
             lp.parse_line = orig
         return list(log)
-    runr = sym_run(fn)
-    seen = set()
-    for o in inner:
-        if o.name not in seen:
-            seen.add(o.name)
-            obs.append(o)
+    try:
+        runr = sym_run(fn)
+    except Unsupported as e:
+        return [simple_ob("ObjdumpParserManual.parse:RUN", GP, "RUN", "symbolic execution of the parser loop completes", None,
+                          ["C08", "C16", "C09", "C10", "C07", "C11", "C12"], detail=f"unsupported: {e}")]
+    obs.extend(worst_per_name(inner))
     for i, p in enumerate(runr.paths):
         ok = p.kind == "ret" and len(p.value) == 1 and p.value[0][0] == "splice" and p.value[0][1] in ("lines|filter", "lines") and p.value[0][2] == "len"
         obs.append(simple_ob(f"ObjdumpParserManual.parse:p{i}:POST", GP, "POST",
@@ -497,24 +504,29 @@ def encoder():
                                  "text = addr '::' mnemonic ',' + ','.join(operands)", shown == want, ["C10"], detail=shown, witness=shown))
     # consume_instruction: appends stringify()+',|' for a real instruction, nothing for the continuation pseudo-instruction
     import regex as real_regex
-    for kind in ("real", "empty"):
-        def fn():
+    for kind in ("real", "empty", "repeated"):
+        def fn(kind=kind):
             mo = J.mobs.MatchedObserver()
             c = J.consumer.CompleteConsumer(regex_rule="x", matched_observer=mo, matching_mode=J.gd.MatchingSearchMode.first_find,
                                             return_only_address=False)
             for o in J.match.ObserverBuilder().get_instruction_observers():
                 c.add_observer(o)
-            mn = Name("m") if kind == "real" else "empty"
+            mn = Name("m") if kind != "empty" else "empty"
             c.consume_instruction(J.gd.Instruction(addr=Name("a"), mnemonic=mn, operands=[Name("o1")]))
+            if kind == "repeated":
+                # the same instruction text at the same address again (sections of an object file restart at 0; two equal stubs):
+                # one record per consumed instruction, equal or not
+                c.consume_instruction(J.gd.Instruction(addr=Name("a"), mnemonic=mn, operands=[Name("o1")]))
             c.consume_instruction(J.gd.Instruction(addr=Name("a2"), mnemonic=Name("m2"), operands=[]))
             return list(c._all_instructions_list)
         runr = sym_run(fn)
         for i, p in enumerate(runr.paths):
             shown = [runr.ctx.table.show(x) for x in p.value] if p.kind == "ret" else repr(p.value)
-            want = (["‹a›::‹m›,‹o1›,|"] if kind == "real" else []) + ["‹a2›::‹m2›,,|"]
+            want = (["‹a›::‹m›,‹o1›,|"] * (2 if kind == "repeated" else 1) if kind != "empty" else []) + ["‹a2›::‹m2›,,|"]
             obs.append(simple_ob(f"consume_instruction:{kind}:p{i}:POST", "jasm.consumer.CompleteConsumer.consume_instruction", "POST",
-                                 ("an instruction adds exactly its record text + ',|' (an instruction without operands has one empty field)"
-                                  if kind == "real" else "the byte-continuation pseudo-instruction 'empty' adds nothing"),
+                                 ("an instruction adds exactly its record text + ',|' (an instruction without operands has one empty field); "
+                                  "an instruction equal to the previous one adds its record again"
+                                  if kind != "empty" else "the byte-continuation pseudo-instruction 'empty' adds nothing"),
                                  shown == want, ["C10", "C08"], detail=repr(shown), witness=repr(shown)))
     return obs
 
